@@ -143,6 +143,6 @@ JsonListsOK(j) ==
     /\ \A a \in 1..Len(j.edges) :
           /\ j.edges[a].key = j.edges[a].id
           /\ \A k \in 1..(Len(j.edges[a].ops) - 1) :
-                \/ j.edges[a].ops[k][1] < j.edges[a].ops[k+1][1]
-                \/ (j.edges[a].ops[k][1] = j.edges[a].ops[k+1][1] /\ j.edges[a].ops[k][2] <= j.edges[a].ops[k+1][2])
+                IF j.edges[a].ops[k][1] = j.edges[a].ops[k+1][1] THEN j.edges[a].ops[k][2] <= j.edges[a].ops[k+1][2]
+                ELSE j.edges[a].ops[k][1] < j.edges[a].ops[k+1][1]
 =============================================================================
